@@ -110,6 +110,8 @@ pub trait FieldLike: Copy + PartialEq + Send + Sync + core::fmt::Debug + 'static
     fn hash_bytes(a: &Self) -> (u64, Vec<u8>);
     fn from_u128(v: u128) -> Vec<(&'static str, Self)>;
     fn rand_inherent(rng: &mut rand_chacha::ChaCha20Rng) -> Self;
+    /// zeroize::Zeroize::zeroize
+    fn zeroize_field(&mut self);
 }
 
 #[derive(Default)]
@@ -411,6 +413,9 @@ macro_rules! impl_fieldlike {
                     o.push(("From<bool>", <$F>::from(v == 1)));
                 }
                 o
+            }
+            fn zeroize_field(&mut self) {
+                zeroize::Zeroize::zeroize(self)
             }
             fn rand_inherent(rng: &mut rand_chacha::ChaCha20Rng) -> Self {
                 <$F>::rand(rng)
